@@ -41,6 +41,7 @@ void Script::Load() {
     else if (key == "coniis") { has_iis = true; int g; ss >> g; ints(coniis[g]); }
     else if (key == "interm") ss >> n_interm;
     else if (key == "raise") ss >> raise_at;
+    else if (key == "abort") ss >> abort_code;
     else if (key == "poll") ss >> poll_stop;
     else if (key == "hist") {        // hist <pre|post> <kind> | vars v.. | cons <g> v.. | cons <g> v..
       Xfer x; ss >> x.dir >> x.kind;
@@ -106,6 +107,7 @@ void ScriptedBackend::Solve() {
   for (int i = 0; i < script_.poll_stop; ++i)
     if (auto f = lp()->rec) { fprintf(f, "{\"e\":\"Poll\",\"stop\":%d}\n", (int)inter_->Stop()); fflush(f); }
   if (script_.raise_at == 1) MP_RAISE("scripted failure in Solve");
+  if (script_.abort_code >= 0) Abort(script_.abort_code, "scripted abort " + std::to_string(script_.abort_code));
 }
 
 ArrayRef<double> ScriptedBackend::PrimalSolution() {
